@@ -159,9 +159,10 @@ let build_cases () =
       let mm = match mode with "3" -> M03 | "h" -> MHttp | _ -> MNone in
       let r = run_build_m (bytes_of_hex utils) (bytes_of_hex hdr) mm (parse_tree tree) (bytes_of_hex base) (parse_kv fs0) (parse_program prog) in
       let ok = r.r_ok in
+      let hyp = plan_ok_m (bytes_of_hex utils) (bytes_of_hex hdr) mm (parse_tree tree) (bytes_of_hex base) (parse_program prog) in
       let kv l = if l = [] then "-" else String.concat "," (List.map (fun (k, v) -> hex_of_bytes k ^ "=" ^ hex_of_bytes v) l) in
       let ps l = if l = [] then "-" else String.concat "," (List.map hex_of_bytes l) in
-      print_string ("ok=" ^ (if ok then "1" else "0") ^ " fs=" ^ kv r.r_fs ^ " writes=" ^ ps r.r_writes ^ " out=" ^ hex_of_bytes r.r_out ^ " reads=" ^ ps r.r_reads ^ "\n")
+      print_string ("ok=" ^ (if ok then "1" else "0") ^ " fs=" ^ kv r.r_fs ^ " writes=" ^ ps r.r_writes ^ " out=" ^ hex_of_bytes r.r_out ^ " reads=" ^ ps r.r_reads ^ " hyp=" ^ (if hyp then "1" else "0") ^ "\n")
     | _ -> print_string "BADCASE\n")
 
 let hash_cases () =
